@@ -192,10 +192,25 @@ func genCrash(yield func(any)) {
 	// (f) the end of the representable years, in zones east and west of UTC: never a panic, whatever is accepted
 	for _, tz := range []int{-43200, -3600, 0, 3600, 32400, 50400} {
 		for _, v := range []J{{"from": "9999-12-31", "duration": "1d"}, {"from": "9999-12-30", "duration": "1d"}, {"from": "9999-12-30", "duration": "2d"}, {"until": "9999-12-31"},
-			{"from": "9999-12-31", "until": "9999-12-31"}, {"from": "9999-01-01", "duration": "1y"}, {"from": "9998-12-31", "duration": "1y1d"}, {"from": "0001-01-01", "until": "0001-01-02"}, {"from": "0000-12-31", "duration": "1d"}} {
+			{"from": "9999-12-31", "until": "9999-12-31"}, {"from": "9999-01-01", "duration": "1y"}, {"from": "9998-12-31", "duration": "1y1d"}, {"from": "0001-01-01", "until": "0001-01-02"}, {"from": "0000-12-31", "duration": "1d"},
+			// only a start date: the default lifetime of five years decides where the validity ends
+			{"from": "9994-12-31"}, {"from": "9995-01-01"}, {"from": "9995-01-02"}, {"from": "9996-06-15"}, {"from": "9999-12-31"}} {
 			c := tinyCfg("Year", "", "")
 			c["validity"] = v
 			yield(PkiIn{Tz: tz, Strat: 9, Files: []FileIn{certFile("root.yaml", c, true)}})
+			// the same next to an artifact from an earlier run (planning then compares configuration hashes), under further flag sets
+			for _, strat := range []int{9, 8, 12, 13, 27, 31, 2} {
+				if !thorough() && tz != 0 && tz != 50400 && strat != 9 {
+					continue
+				}
+				cr := tinyCfg("Real", "", "")
+				cr["validity"] = v
+				yield(PkiIn{Tz: tz, Strat: strat, Files: []FileIn{certFile("root.yaml", cr, true), {Path: "root.pem", Kind: "pem", Text: realPemVariant(5), Age: 500}}})
+				pj2 := must(json.Marshal(J{"version": 1, "name": "p", "validity": v}))
+				cr2 := tinyCfg("Real", "", "")
+				cr2["profile"] = "p"
+				yield(PkiIn{Tz: tz, Strat: strat, Files: []FileIn{certFile("root.yaml", cr2, true), {Path: "p.yaml", Kind: "profile", Json: pj2, Text: string(pj2), Age: 300}, {Path: "root.pem", Kind: "pem", Text: realPemVariant(5), Age: 500}}})
+			}
 			pj := must(json.Marshal(J{"version": 1, "name": "p", "validity": v}))
 			c2 := tinyCfg("Year", "", "")
 			c2["profile"] = "p"
